@@ -233,6 +233,25 @@ let run_conn which toks obs =
            | f :: _, _ -> Printf.sprintf "PROPFAIL %s %s" id f
            | [], d :: _ -> Printf.sprintf "MISMATCH %s sig=model-differs %s" id d
            | [], [] -> Printf.sprintf "AGREE %s %s" id (if nontrivial then "nontrivial" else "trivial"))
+  | "slowdial" :: id :: rest ->
+      (* a slow dial through a built-in connection transport: commands whose contexts end meanwhile return promptly *)
+      let k = parse_kv rest in
+      (match Hashtbl.find_opt obs id with
+       | None -> Printf.sprintf "MISMATCH %s no-observation" id
+       | Some ot ->
+           let okv = parse_kv (List.tl (List.tl ot)) in
+           if kv "panic" okv <> "" then Printf.sprintf "PROPFAIL %s sig=panic the harness case panicked: %s" id (kv "panic" okv) else
+           let ms x = try int_of_string (kv x okv) with _ -> 99999 in
+           let bad who cls m =
+             if cls = "blocked" || m > 1500 then Some (Printf.sprintf "command %s %s after its context ended (returned %s after %d ms)" who (if cls = "blocked" then "is still blocked 3 s" else "returned late") cls m)
+             else if cls <> "ctx" then Some (Printf.sprintf "command %s returned %s, not its context's error" who cls)
+             else None in
+           (match bad "A (which started the sequence)" (kv "a" okv) (ms "ams"), bad "B (submitted during the dial)" (kv "b" okv) (ms "bms") with
+            | Some w, _ | None, Some w -> Printf.sprintf "PROPFAIL %s sig=stuck:command-during-slow-dial:%s %s" id (kv "kind" k) w
+            | None, None ->
+                if ms "isconnectedms" < 0 || ms "isconnectedms" > 1500 then
+                  Printf.sprintf "PROPFAIL %s sig=stuck:isconnected-during-slow-dial:%s IsConnected did not answer while the dial was in progress" id (kv "kind" k)
+                else Printf.sprintf "AGREE %s nontrivial" id))
   | "ctrans" :: id :: rest ->
       let k = parse_kv rest in
       (match Hashtbl.find_opt obs id with
